@@ -302,7 +302,7 @@ func (g *gen) accept() *string {
 			s += hx.Pick(r, []string{";version=1", "; charset=utf-8", ";v=\"2\""})
 		}
 		if r.Chance(1, 2) {
-			s += hx.Pick(r, []string{";q=1", ";q=0.9", "; q=0.5", ";q=0.001", ";q=1.0", ";Q=0.8"})
+			s += hx.Pick(r, []string{";q=1", ";q=0.9", "; q=0.5", ";q=0.001", ";q=1.0", ";Q=0.8", ";q=0", ";q=0", ";q=0.0", "; q=0.000"})
 		}
 	}
 	return &s
@@ -336,6 +336,8 @@ func (g *gen) acase() acaseT {
 	if r.Chance(1, 4) {
 		k.Tail = hx.Pick(r, []bstr{"42", "caf\xe9", "\x01", "a b", "x\x7f", "\U000e0001", "é", "\u2028", "%41", "\xff", "tab\t", "q?x=1"})
 	}
+	// a guard: c.Abort() first, then the error response
+	k.AbortFirst = r.Chance(1, 6)
 	// something had set a Content-Type before the error happened
 	if r.Chance(1, 5) {
 		k.PreCT = sp(hx.Pick(r, []string{"text/csv; charset=utf-8", "text/html", "application/json", "application/octet-stream", "application/problem+json", "image/png"}))
@@ -394,6 +396,10 @@ func fixedCases() []caseT {
 	for _, acc := range []*string{nil, sp("application/vnd.api+json"), sp("application/json"), sp("text/html")} {
 		add(acaseT{Wire: "r", Opts: neg, Accept: acc, Len: 2, Pos: 1, Mask: 1, Call: callT{Kind: "helper", Helper: 0, Err: boom}})
 	}
+	// a configured type the client refuses (q=0) next to one it takes; refused by the specific range although */* is there
+	for _, acc := range []*string{sp("application/json;q=0, application/vnd.api+json"), sp("application/vnd.api+json;q=0, */*;q=0.5"), sp("application/json;q=0, application/vnd.api+json;q=0")} {
+		add(acaseT{Wire: "r", Opts: neg, Accept: acc, Len: 2, Pos: 1, Mask: 1, Call: callT{Kind: "helper", Helper: 0, Err: boom}})
+	}
 	// K06c: statuses that cannot carry a body, over a real connection
 	for _, s := range []int{100, 101, 150, 204, 304} {
 		add(acaseT{Wire: "s", Len: 2, Pos: 1, Mask: 1, Call: callT{Kind: "status", Status: s, Err: boom}})
@@ -417,6 +423,8 @@ func fixedCases() []caseT {
 	add(acaseT{Wire: "r", Len: 2, Pos: 1, Mask: 1, Tail: "\x01", Call: callT{Kind: "helper", Helper: 0, Err: boom}})
 	add(acaseT{Wire: "s", Len: 2, Pos: 1, Mask: 1, Tail: "caf\xe9", Call: callT{Kind: "helper", Helper: 0}})
 	add(acaseT{Wire: "r", Len: 2, Pos: 1, Mask: 1, Call: callT{Kind: "helper", Helper: 0, Err: &errT{Kind: "new", Msg: "user \x1b\U000e0001\xe9 not found"}}})
+	// guard middleware: Abort, then Forbidden
+	add(acaseT{Wire: "r", Len: 3, Pos: 0, AbortFirst: true, Call: callT{Kind: "helper", Helper: 3, Err: boom}})
 	// a Content-Type already set when the handler fails (download handler; default-content-type middleware)
 	for _, f := range []fmtT{rfc, japi, simple} {
 		f := f
